@@ -57,6 +57,9 @@ def run(ctx):
         # part (a): every image of the valid / deviated / malformed families, both modes, vs the model;
         # whenever strict accepts, both dumps must be equal
         C.harness(["mutate", "--seed", ctx.seed + 5, "--bases", blist, "--outdir", mutdir, "--count", 1500 if quick else 100000, "--list", mlist])
+        if not (os.path.exists(dlist) and os.path.exists(mlist)):
+            ctx.undischarged.append("harness deviate/mutate crashed: " + out[-300:])
+            return C.finish(ctx)
         files = bases + layouts[25 if quick else 300:] + open(dlist).read().split() + open(mlist).read().split()
         ops, imp, mod = R.run_raw(ctx, files, "c16")
         strict_ok = 0
